@@ -8,7 +8,7 @@ ID = "C07"
 COQ_IMPORTS = ["From HTA.model Require Import C07_Model."]
 SOURCES = {"hta/analyzers/communication_analysis.py": ["get_comm_comp_overlap"],
            "hta/utils/utils.py": ["merge_kernel_intervals", "get_kernel_type", "is_comm_kernel", "is_memory_kernel", "is_compute_kernel"]}
-TRANSLATE = [translate.gen_kernel_rules, translate.gen_launch_names]
+TRANSLATE = [translate.gen_kernel_rules, translate.gen_launch_names, translate.gen_overlap_rules]
 INPUT_CONTRACT = True        # the loaded frame is re-checked against the file (framework.input_contract)
 N_CASES = {"quick": 400, "thorough": 6000}
 RULE = ("generated file sets, mostly profile comm_overlap (device intervals anywhere on a tiny time domain, half of them communication kernels: "
@@ -109,7 +109,8 @@ LEVEL_TEXT = ("Proof: C07_overlap_exact (for every ts-sorted permutation of the 
               "the status rows: numerator = number of time cells covered by both a communication and a computation kernel, denominator = cells covered by a "
               "communication kernel, 0 <= num <= den), C07_sweep_exact (the boundary-row sweep for any tie order), C07_bounds; unbounded in the number of "
               "kernels. Correspondence on get_comm_comp_overlap for every rank."
-              " C07_resolution_independent: times multiplied by k > 0 multiply numerator and denominator by k.")
+              " C07_resolution_independent: times multiplied by k > 0 multiply numerator and denominator by k."
+              " C07_rules_follow_source: boundary-row weights and overlap level are read from get_comm_comp_overlap_value on every run (strict reading).")
 LEVEL_NOTE = ("Hand model of get_comm_comp_overlap_value on top of merge_kernel_intervals (C04's model); kernel classification modelled from the regex "
               "constants (checked literally by the translator). Float division and round(.,2) not modelled (tolerance 0.005).")
 TECHNIQUE = "Coq proof (sweep-line lemma over sorted boundary rows, cell-counting measure) + differential correspondence via vm_compute"
